@@ -5,6 +5,7 @@ import (
 	"errors"
 	"fmt"
 	"log/slog"
+	"math"
 )
 
 type ByteSize int64
@@ -45,6 +46,7 @@ func Parse(s string) (ByteSize, error) {
 	num := int64(0)
 	multiplier := int64(1)
 	foundUnit := false
+	foundDigit := false
 
 	for _, r := range s {
 		if isDigit(r) {
@@ -53,7 +55,11 @@ func Parse(s string) (ByteSize, error) {
 			}
 
 			digit := int64(r - '0')
+			if num > (math.MaxInt64-digit)/10 {
+				return 0, fmt.Errorf("%w: number too large in: %s", ErrInvalidFormat, s)
+			}
 			num = num*10 + digit
+			foundDigit = true
 		} else {
 			if foundUnit {
 				return 0, fmt.Errorf("%w in: %s", ErrMultipleUnits, s)
@@ -64,10 +70,17 @@ func Parse(s string) (ByteSize, error) {
 				return 0, fmt.Errorf("%w: %c in: %s", ErrUnknownUnit, r, s)
 			}
 
+			// Keep scanning: anything after the unit is an error, not something to ignore.
 			multiplier = unit
 			foundUnit = true
-			break
 		}
+	}
+
+	if !foundDigit {
+		return 0, fmt.Errorf("%w: no digits in: %s", ErrInvalidFormat, s)
+	}
+	if num > math.MaxInt64/multiplier {
+		return 0, fmt.Errorf("%w: size too large in: %s", ErrInvalidFormat, s)
 	}
 
 	return ByteSize(num * multiplier), nil
@@ -115,12 +128,14 @@ func (b ByteSize) ToString(unitRune rune) (string, error) {
 	return fmt.Sprintf("%d%c", size, unitRune), nil
 }
 
+// Finds the largest unit in which the size can be written without losing anything,
+// so that the string form parses back to exactly the same number of bytes.
 func (b ByteSize) FindLargestFittingUnit() rune {
 	largestUnitSize := int64(1)
 	largestUnitRune := 'B'
 
 	for unitRune, unitSize := range unitRuneMap {
-		if int64(b) < unitSize {
+		if int64(b) < unitSize || int64(b)%unitSize != 0 {
 			continue
 		}
 
